@@ -35,11 +35,27 @@ def case_samples(case):
 
 
 def folded_equal_keys(case):
+    """two distinct keys with the same fold in one object - or in one *model*: objects at the same position, or merged by
+    the similarity policy, pool their keys.  Decided on the final registry where the case allows building it."""
     for s in case_samples(case):
         for o in objects(s):
             folds = [gen.fold(k) for k in o]
             if len(set(folds)) != len(folds):
                 return True
+    if isinstance(case, dict) and isinstance(case.get("samples"), list) and case["samples"]:
+        try:
+            from . import pipeline as pl
+            extra = [tuple(x) for x in case.get("extra_models", [])]
+            b = pl.build(case["samples"], case.get("opts") or {}, extra_models=extra, names=False)
+            for m in b.reg.models:
+                folds = [gen.fold(k) for k in m.type]
+                if len(set(folds)) != len(folds):
+                    return True
+            return False
+        except Exception:  # noqa: BLE001 - cannot build: fall back to the conservative reading (any two keys of the case)
+            ks = {k for s in case_samples(case) for k in all_keys(s)}
+            folds = [gen.fold(k) for k in ks]
+            return len(set(folds)) != len(folds)
     return False
 
 
@@ -89,6 +105,17 @@ def all_strings(v):
             yield from all_strings(x)
 
 
+def all_numbers(v):
+    if isinstance(v, (int, float)) and not isinstance(v, bool):
+        yield v
+    elif isinstance(v, dict):
+        for x in v.values():
+            yield from all_numbers(x)
+    elif isinstance(v, list):
+        for x in v:
+            yield from all_numbers(x)
+
+
 def pydantic_stricter_datetime(case):
     """some sample string is accepted by a registered Iso* pseudo-type but rejected by pydantic.v1's own parser for
     the actual type the pydantic/sqlmodel output is annotated with"""
@@ -122,7 +149,8 @@ def pydantic_parser_overflow(case):
     from pydantic.v1 import datetime_parse as dp
     parsers = {"IsoDateString": dp.parse_date, "IsoTimeString": dp.parse_time, "IsoDatetimeString": dp.parse_datetime}
     names = [n for n in pl.norm_opts(o)["sreg"] if n in parsers]
-    for s in set(all_strings(case_samples(case))):
+    values = set(all_strings(case_samples(case))) | set(all_numbers(case_samples(case)))
+    for s in values:
         for n in names:
             try:
                 parsers[n](s)
